@@ -62,6 +62,11 @@ def op_library():
             out.append(r)
     out += [{"op": "set", "key": "toolarge", "value": b"v", "noreply": False}, {"op": "add", "key": "nostore", "value": b"v", "noreply": False},
             {"op": "set", "key": "oom", "value": b"v", "noreply": False}, {"op": "set", "key": "toolarge", "value": b"v", "noreply": True}]
+    # the noreply flag given as a truthy / falsy value that is not a bool (1, "yes", 2 / 0, ""): same behaviour as True / False
+    out += [{"op": "set", "key": TXT, "value": b"val", "noreply": 1}, {"op": "set_many", "values": {TXT: b"1", "b": b"2"}, "noreply": "yes"},
+            {"op": "delete", "key": TXT, "noreply": 1}, {"op": "touch", "key": TXT, "expire": 9, "noreply": "yes"}, {"op": "incr", "key": NUM, "delta": 2, "noreply": 2},
+            {"op": "delete_many", "keys": [TXT, NUM], "noreply": 1}, {"op": "flush_all", "noreply": "no"}, {"op": "cas", "key": TXT, "value": b"c", "cas": b"2", "noreply": 1},
+            {"op": "add", "key": "fresh", "value": b"val", "noreply": 0}, {"op": "replace", "key": TXT, "value": b"val", "noreply": ""}, {"op": "append", "key": TXT, "value": b"x", "noreply": 1.0}]
     # raw_command: arbitrary commands, storage commands with their data block included (the block may end in CR LF itself)
     out += [{"op": "raw_command", "command": b"version"}, {"op": "raw_command", "command": "delete t"},
             {"op": "raw_command", "command": b"get t n", "end": b"END\r\n"}, {"op": "raw_command", "command": b"set rk 0 0 3\r\nabc"},
